@@ -49,6 +49,8 @@ pub enum Sel {
     Fault(ReadFault),
     /// every truncation point
     SweepEof,
+    /// fail the k-th read call, for every k the fault-free run makes (plus one)
+    SweepReads { kinds: Vec<ErrKind>, afters: Vec<After> },
     EofAt(usize),
     /// cap values around the length
     SweepCap,
@@ -429,6 +431,26 @@ pub fn exec_reader(c: &ReaderCase, st: &mut Stats) -> Vec<Viol> {
             }
         }
         Sel::Fault(f) => one_fault(c, st, &refr, *f, &narrowed, &mut out),
+        Sel::SweepReads { kinds, afters } => {
+            // the library also issues reads of its own (3-byte BOM peek, 8 KiB refills, diagnostic
+            // read-ahead): every one of them gets its turn to fail
+            let n = refr.reader.reads().min(4000);
+            for k in 0..=n {
+                for kind in kinds {
+                    for after in afters {
+                        let f = ReadFault {
+                            pos: FaultPos::AtRead(k as usize),
+                            kind: *kind,
+                            after: *after,
+                        };
+                        one_fault(c, st, &refr, f, &narrowed, &mut out);
+                    }
+                }
+                if out.len() > 40 {
+                    break;
+                }
+            }
+        }
         Sel::SweepEof => {
             for k in 0..bytes.len() {
                 one_eof(c, st, &refr, k, &narrowed, &mut out);
@@ -1197,7 +1219,7 @@ impl Plan {
 
 pub fn total(tier: Tier) -> u64 {
     match tier {
-        Tier::Quick => 4000,
+        Tier::Quick => 5200,
         Tier::Thorough => 40_000,
     }
 }
@@ -1219,7 +1241,7 @@ pub fn gen_case(plan: &Plan, tier: Tier, seed: u64, idx: u64) -> Case {
     let slot = idx / 5 * 4 + idx % 5; // dense index over reader cases
     // choose document / stream, target, entry
     let block = slot / (ncorp * 8);
-    let systematic = block < 3;
+    let systematic = block < 4;
     let (doc, spans, target, entry) = if systematic {
         let within = slot % (ncorp * 8);
         let d = (within % ncorp) as usize;
@@ -1301,7 +1323,11 @@ pub fn gen_case(plan: &Plan, tier: Tier, seed: u64, idx: u64) -> Case {
                 afters: all_afters.clone(),
             },
             1 => Sel::SweepEof,
-            _ => Sel::SweepCap,
+            2 => Sel::SweepCap,
+            _ => Sel::SweepReads {
+                kinds: vec![ErrKind::Other, ErrKind::ConnectionReset, ErrKind::UnexpectedEof],
+                afters: all_afters.clone(),
+            },
         }
     } else {
         match rng.below(10) {
@@ -1311,8 +1337,12 @@ pub fn gen_case(plan: &Plan, tier: Tier, seed: u64, idx: u64) -> Case {
                 frag: Doc::from_str(*rng.pick(&["- a\n", "k: v\n", "---\nx: 1\n", "# c\n", "é: ü\n"])),
                 cap: *rng.pick(&[Some(0usize), Some(100), Some(5000), Some(70_000)]),
             },
-            4 | 5 => Sel::SweepFaults {
+            4 => Sel::SweepFaults {
                 kinds: all_kinds.clone(),
+                afters: all_afters.clone(),
+            },
+            5 => Sel::SweepReads {
+                kinds: vec![*rng.pick(&HARD_KINDS), ErrKind::Other],
                 afters: all_afters.clone(),
             },
             _ => Sel::SweepFaults {
